@@ -67,6 +67,25 @@ def cases(rng, tier, shard, nshards, phase):
             if rng.random() < 0.2 and nb > 1:
                 props = [1.0] + [0.0] * (nb - 1)
             yield {"op": "combine", "supports": sups, "props": props}
+        elif k < 0.62:
+            # several blocs: the table of every bloc must come from ITS interval combined with ITS cohesion row, each
+            # share looked up by slate name - the nested dicts list rows and columns in their own orders
+            nb = rng.randint(2, 3)
+            sizes = [rng.randint(1, 2) for _ in range(nb)]
+            while sum(sizes) > 5:
+                sizes[sizes.index(max(sizes))] -= 1
+            sup = [[[v if v > 0 or rng.random() < 0.5 else 1.0 for v in gen_supports(rng, sizes[s])] for s in range(nb)]
+                   for _ in range(nb)]
+            coh = []
+            for b in range(nb):
+                cuts = sorted(rng.random() for _ in range(nb - 1))
+                row = [y - x for x, y in zip([0.0] + cuts, cuts + [1.0])]
+                if rng.random() < 0.15:
+                    row = [0.0] * nb
+                    row[rng.randrange(nb)] = 1.0
+                coh.append(row)
+            yield {"op": "bt_blocs", "sizes": sizes, "supports": sup, "cohesion": coh,
+                   "row_order": rng.choice(["own-first", "shuffled", "bloc-order"]), "os": rng.randint(0, 10 ** 6)}
         elif k < 0.8:
             n = rng.randint(1, 6)
             sup = [s if s > 0 else 1.0 for s in gen_supports(rng, n)]
@@ -177,6 +196,72 @@ def run_case(vk, case):
         return {"req": {"op": "bt_pdf", "interval": [[i, rat(v)] for i, v in sorted(xf.items())]},
                 "expect": {"table": {str(list(k)): v for k, v in pdf.items()}}, "monitors": monitors, "tags": tags,
                 "nontrivial": len(xf) > 1}
+    if case["op"] == "bt_blocs":
+        import random as _r
+        sizes, sup, coh = case["sizes"], case["supports"], case["cohesion"]
+        nb = len(sizes)
+        blocs = [f"B{b}" for b in range(nb)]
+        slates, k = [], 0
+        for s in range(nb):
+            slates.append([f"c{k + j}" for j in range(sizes[s])])
+            k += sizes[s]
+        ro = _r.Random(case["os"])
+
+        def order(b):
+            ks = list(range(nb))
+            if case["row_order"] == "own-first":
+                ks = [b] + [x for x in ks if x != b]
+            elif case["row_order"] == "shuffled":
+                ro.shuffle(ks)
+            return ks
+        try:
+            pib = {blocs[b]: {blocs[s]: PreferenceInterval(dict(zip(slates[s], sup[b][s]))) for s in order(b)} for b in range(nb)}
+        except ZeroDivisionError:
+            return None     # a slate without any support in some bloc: outside this stream
+        kw = dict(slate_to_candidates={blocs[s]: slates[s] for s in range(nb)}, pref_intervals_by_bloc=pib,
+                  bloc_voter_prop={blocs[b]: 1.0 / nb for b in range(nb)},
+                  cohesion_parameters={blocs[b]: {blocs[s]: coh[b][s] for s in order(b)} for b in range(nb)})
+        out = run_impl(lambda: BG.name_BradleyTerry(**kw))
+        tags.append(f"rows:{case['row_order']}")
+        if out[0] != "ok":
+            # all-zero combined interval (cohesion 1 on a slate without support) is the documented ZeroDivisionError
+            if out[1] != "ZeroDivisionError":
+                fail("bt-generator-raises", out[2])
+            return {"req": None, "expect": None, "monitors": monitors, "tags": tags}
+        g = out[1]
+        reqs = None
+        for b in range(nb):
+            want = {}
+            for s in range(nb):
+                S = sum(Fraction(v) for v in sup[b][s])
+                for c, v in zip(slates[s], sup[b][s]):
+                    x = Fraction(v) / S * Fraction(coh[b][s])
+                    if x > 0:
+                        want[c] = x
+            T = sum(want.values())
+            want = {c: v / T for c, v in want.items()}
+            got = dict(g.pref_interval_by_bloc[blocs[b]].interval)
+            if set(got) != set(want) or any(not close(got[c], want[c]) for c in want):
+                fail("bloc-interval-not-own-row", f"bloc {blocs[b]} ({case['row_order']}): {got} vs {{c: float(v) for c, v in want.items()}}".replace("{{", "{").replace("}}", "}"))
+                continue
+            w = {}
+            for r in itertools.permutations(sorted(want)):
+                pr = Fraction(1)
+                for i in range(len(r)):
+                    for j in range(i + 1, len(r)):
+                        pr *= want[r[i]] / (want[r[i]] + want[r[j]])
+                w[r] = pr
+            Z = sum(w.values())
+            pdf = {tuple(k): v for k, v in g.pdfs_by_bloc[blocs[b]].items()}
+            if set(pdf) != set(w) or any(abs(pdf[r] - float(w[r] / Z)) > 1e-7 * max(float(w[r] / Z), 1e-12) + 1e-15 for r in w):
+                fail("bloc-table-not-own-interval", f"bloc {blocs[b]}")
+            if reqs is None:
+                xf = {int(c[1:]): Fraction(v) for c, v in got.items()}
+                reqs = ({"op": "bt_pdf", "interval": [[i, rat(v)] for i, v in sorted(xf.items())]},
+                        {"table": {str([int(c[1:]) for c in k]): v for k, v in pdf.items()}})
+        if reqs is None:
+            return {"req": None, "expect": None, "monitors": monitors, "tags": tags}
+        return {"req": reqs[0], "expect": reqs[1], "monitors": monitors, "tags": tags, "nontrivial": True}
     # slate BT
     a, b, c = case["a"], case["b"], case["cohesion"]
     A = [f"a{i}" for i in range(a)]
